@@ -160,6 +160,13 @@ impl Store {
             }
         }
 
+        // A backup left behind by an earlier rebuild is superseded by the one made now.
+        // (A directory cannot be renamed over a non-empty directory: without this the
+        // second rename below fails after the first has already moved the event map.)
+        if indexes_bak_path.exists() {
+            fs::remove_dir_all(&indexes_bak_path)?;
+        }
+
         // Backup existing data (moving out of the way)
         fs::rename(&events_path, &events_bak_path)?;
         fs::rename(&indexes_path, &indexes_bak_path)?;
